@@ -19,7 +19,7 @@ CLAIMED["C01"] = (
     "exploration",
     "property-based testing: Hypothesis-generated multi-session histories; oracle = replay of every session's own byte stream into a view (EXISTS/EXPUNGE/FETCH legality, UID binding, marker-STORE landing, equality with the reference list at sync points)",
     "Generated cross-session histories with a black-box replay of each session's stream; each clause of the property is an executable invariant over that replay, and marker keywords make 'which message did sequence number n denote' exact.",
-    _TRUST + " Commands run one at a time here (in-flight concurrency is C10).",
+    _TRUST + " Three quarters of the shards run commands one at a time; one quarter runs the shared concurrent mode (vf/props/c01_conc.py: 2-3 sessions with commands in flight under a generated schedule, deliveries in flight, slow clients) with model-free oracles over each session's stream.",
     "DESIGN.md section 4 C01",
 )
 CLAIMED["C04"] = (
@@ -33,14 +33,14 @@ CLAIMED["C02"] = (
     "exploration",
     "property-based testing: Hypothesis-generated message + namespace histories with restarts and packs; oracle = history-long ledger per (mailbox name, UIDVALIDITY) fed by an observer's read-back after every step",
     "Generated histories over message-adding/removing and CREATE/DELETE/RENAME commands, pack and restart; the observer reveals every UID, UIDNEXT and UIDVALIDITY after every step (= every prefix) and a ledger checks ascent, non-reuse, UIDNEXT honesty, APPENDUID/COPYUID truthfulness and incarnation uniqueness. UIDs are constrained, not predicted.",
-    _TRUST + " One command session; the namespace model follows tagged results.",
+    _TRUST + " One command session in three quarters of the shards (the namespace model follows tagged results); one quarter runs the shared concurrent mode and checks that COPYUID names exactly the copies made.",
     "DESIGN.md section 4 C02",
 )
 CLAIMED["C03"] = (
     "exploration",
     "property-based testing: same generated histories; oracle = byte-identical BODY[] and same INTERNALDATE per (incarnation, UID) re-read after every step, plus seq<->UID correspondence probes",
     "Every live message is re-read by UID after every step of generated histories (expunge, pack renumbering files, rename, restart, deliveries) and compared with what that UID first returned; sequence-numbered and UID-numbered fetches are cross-checked at every command boundary in a probed mailbox.",
-    _TRUST + " One command session plus observer (second-session interleavings are covered by C10).",
+    _TRUST + " One command session plus observer in three quarters of the shards; one quarter runs the shared concurrent mode (uid -> content over the streams of 2-3 sessions with commands in flight).",
     "DESIGN.md section 4 C03",
 )
 CLAIMED["C12"] = (
@@ -60,7 +60,7 @@ CLAIMED["C13"] = (
 CLAIMED["C19"] = (
     "exploration",
     "property-based testing: Hypothesis-generated client byte streams x segmentations (plus exhaustive 1- and 2-cut segmentations of canonical streams) through the real IMAPClient.start()/POP3Client.start(); oracle = independent reference tokenizer (lines + literals by octet count) compared with the frames handed to the user process, and byte equality for the server->client relay",
-    "Generated streams of commands with (non-)synchronising literals, look-alike literal headers, empty lines and over-limit sizes under generated and exhaustively enumerated segmentations, with a lowered and the real MAX_INPUT_SIZE; the relayed command list, '+' continuations, BADs and resynchronisation after every refusal are compared with a reference tokenizer; response streams with long CRLF-free runs are relayed through msgs_to_client and compared byte for byte.",
+    "Generated streams of commands with (non-)synchronising literals, look-alike literal headers, empty lines and over-limit sizes under generated and exhaustively enumerated segmentations, with a lowered and the real MAX_INPUT_SIZE; the relayed command list, '+' continuations, BADs and resynchronisation after every refusal are compared with a reference tokenizer; response streams with long CRLF-free runs are relayed through msgs_to_client and compared byte for byte; a third slice sends well-formed commands whose literals carry generated payloads (8-bit in utf-8/latin-1, multi-line, brace look-alikes) through the framing of the authenticated side (IMAPClientProxy.run and the user server's command reader) and requires that none is answered BAD or dropped.",
     _TRUST + " Front-ends are driven in-process with fed StreamReaders whose limits are read from the code; no sockets/TLS.",
     "DESIGN.md section 4 C19",
 )
@@ -136,7 +136,7 @@ CLAIMED["C10"] = (
 )
 CLAIMED["C11"] = (
     "fault_enumeration",
-    "fault injection by enumeration: for generated histories (and first start-up / start-up on a version-k database) a counting dry run numbers every durable effect (every statement/commit handed to the SQLite connection; every os.rename/remove/link/mkdir/rmdir/utime/truncate and every open-for-writing, seen by a sys.addaudithook hook; every flush/close/unbuffered write of a writable file, seen by a sys.monitoring CALL hook) and a forked child is killed (os._exit) just before each effect k = 1..K; oracle = recovery in a fresh process compared with snapshots of the acknowledged states and with the log of everything the client was told",
+    "fault injection by enumeration: for generated histories (and first start-up / start-up on a version-k database) a counting dry run numbers every durable effect (every statement/commit handed to the SQLite connection; every os.rename/remove/link/mkdir/rmdir/utime/truncate and every open-for-writing, seen by a sys.addaudithook hook; every flush/close/unbuffered write of a writable file, seen by a sys.monitoring CALL hook) and a forked child is killed (os._exit) just before each effect k = 1..K; oracle = recovery in a fresh process compared with snapshots of the acknowledged states and, independently of those, with what the client was told (revealed uid->message pairs, the flags reported by STORE / body FETCH responses, the message listing that ends every step); the recovered server is also stopped and started a second time",
     "Every crash point of each generated history is enumerated (quick: start-up kinds with stride 3; thorough: every point). After each kill the server must start, LIST must work and every selectable mailbox must open; all messages and flags acknowledged before the kill must be there (the in-flight command's effects may be absent, partial or complete), no revealed (UIDVALIDITY, UID) may name another message and UIDNEXT must exceed every revealed UID.",
     "Trusted: the effect counter (sys.monitoring + the inline DB queue), fork/os._exit as the crash model (no torn write(2), no power loss / fsync reordering), determinism of the replayed execution, and C12 for reading snapshots back through a restarted server.",
     "DESIGN.md section 4 C11",
